@@ -28,7 +28,7 @@ theorem note_Open_lineCheck_tie :
 /-- isValidName is still the expression `Note.isValidName` transcribes -/
 theorem note_isValidName_tie :
     Generated.note_isValidName_expr
-      = ("name != \"\" && utf8.ValidString(name) && strings.IndexFunc(name, unicode.IsSpace) < 0 && !strings.Contains(name, \"+\")".toList.map
+      = ("name != \"\" && utf8.ValidString(name) && strings.IndexFunc(name, unicode.IsSpace) < 0 && !strings.Contains(name, \"+\") &&\n\tstrings.IndexFunc(name, func(r rune) bool { return r < 0x20 }) < 0".toList.map
           fun c => UInt8.ofNat c.toNat) := by
   decide +kernel
 
